@@ -19,8 +19,34 @@ mod corpus;
 mod isa_sweep;
 mod mach;
 
+/// A logger that accepts every level and formats every record into nothing: with the maximum level
+/// raised to Trace the arguments of the subject's `trace!`/`debug!` lines are evaluated and formatted
+/// (as they are under `2a-emulator -vvvv`); the level is Off outside the passes that ask for it.
+struct Sink;
+impl log::Log for Sink {
+    fn enabled(&self, _: &log::Metadata) -> bool {
+        true
+    }
+    fn log(&self, record: &log::Record) {
+        use std::io::Write;
+        let _ = write!(std::io::sink(), "{}", record.args());
+    }
+    fn flush(&self) {}
+}
+static SINK: Sink = Sink;
+
+/// Run `f` with every log line of the subject evaluated.
+pub fn with_trace_logging<T>(f: impl FnOnce() -> T) -> T {
+    log::set_max_level(log::LevelFilter::Trace);
+    let r = f();
+    log::set_max_level(log::LevelFilter::Off);
+    r
+}
+
 fn main() {
     mc::install_silent_hook();
+    let _ = log::set_logger(&SINK);
+    log::set_max_level(log::LevelFilter::Off);
     let id = std::env::args().nth(1).unwrap_or_default();
     let r = std::panic::catch_unwind(|| dispatch(&id));
     if r.is_err() {
